@@ -387,6 +387,16 @@ def run(ctx):
                     if is_lim(a_) and is_len(b_):
                         okb = okb or (dd[1] == "Gt" and lab is True) or (dd[1] == "Le" and lab is False)
                 chk.ob("C11.f", f"{rt.path} [intake bound]", okb, "push_back only under len(queue) < limit" if okb else "a message can be appended when the per-pass queue already holds `limit` messages: the fan-out forwards only `limit` of them", pc.loc())
+            # the room made in a client's queue is computed from that queue's own length and the limit only, and making it
+            # touches nothing but the queue: the parked remainder of a partly written frame is neither counted as a slot
+            # (the drain range would exceed the queue) nor discarded (the client would be left with a torn frame)
+            drains = [c for c in nonforeign_calls(rt) if c.fn is rt and callee_method_name(c) == "drain" and "VecDeque" in (c.resolved or "")]
+            for dc in drains:
+                rng = arg_syms(dc)[1]
+                opt = sorted({strip_generics(x[1]).split("::")[-1] for x in sym_walk(rng) if isinstance(x, tuple) and x and x[0] == "call" and isinstance(x[1], str) and strip_generics(x[1]).split("::")[-1] in ("is_some", "is_none", "is_some_and", "is_none_or")})
+                chk.ob("C11.f", f"{rt.path} [drain range from the queue's own length]", not opt, "the number of messages dropped for a slow client depends on queue length, batch length and limit only" if not opt else f"the drain range depends on whether some Option is occupied ({opt}): a pending remainder counted as an occupied slot makes the range exceed the client's queue (the transport thread panics, every client is disconnected)", dc.loc(), nontrivial=False)
+            tk = [c for c in nonforeign_calls(rt) if c.fn is rt and c.is_("Option<T>::take", "Option<T>::replace", "Option<T>::insert", "Option<T>::take_if") and any("Bytes" in str(g) for g in (c.t.get("gargs") or []))]
+            chk.ob("C11.a", f"{rt.path} [remainder touched only by drive_connection]", not tk, "run_transport itself never takes or replaces a client's parked remainder" if not tk else "the transport loop discards/replaces a client's parked remainder outside drive_connection: the unwritten tail of a partly written frame is lost and the client's stream is desynchronised for good", tk[0].loc() if tk else rt.loc(), nontrivial=False)
         # capacity
     caps = []
     for f in t.fns:
@@ -445,6 +455,9 @@ def run(ctx):
             a = arg_syms(cs[0])
             op = strip_sym(a[2])
             ok = op[0] == "agg" and op[2] == variant and is_param(op[3][0], 1) and "'key'" in repr(a[1])
+        if ok and cs[0].fn is f and [r for r in f.body.return_blocks() if r in f.body.reachable(0, cut={cs[0].bb})]:
+            # ... for every value: no way through the method returns without the push (a zero increment is an emission too)
+            ok = False
         chk.ob("C11.d", f.path, ok, f"{mn}(v) -> push_metric(&self.key, MetricOperation::{variant}(v))" if ok else f"<Handle as {trait}>::{mn} does not emit MetricOperation::{variant}(value) for its own key exactly once", f.loc())
     conv = t.fn(f"{T}::convert_metric_to_protobuf_encoded")
     if need(chk, "C11.d", "convert_metric_to_protobuf_encoded", conv):
